@@ -992,9 +992,10 @@ impl Runner {
                 let (r0, r1, _) = self.pair_state(i);
                 let x = [r0, r1][k];
                 let a = self.amount_upto(b.min(x.saturating_mul(3).max(1)));
+                let guarded = self.rng.weighted(&[50, 20, 30]) as u8;
                 self.deliver(
                     AddrRef::Actor(who),
-                    Op::QuoteThenSwap { pair: i, offer: AssetAmt { asset: p.refs[k].clone(), amount: u(a) } },
+                    Op::QuoteThenSwap { pair: i, offer: AssetAmt { asset: p.refs[k].clone(), amount: u(a) }, guarded },
                     false,
                     None,
                     "probe quote-then-swap".into(),
